@@ -131,6 +131,16 @@ def _execute_sib(case):
     var_snapshot = copy.deepcopy(var.var_context)
     outs = []
     term = "end"
+    if len(case["flow"]) <= 1:
+        # start from a non-initial state of the process: another SplitIntoBins (typed variable, its own
+        # analysis and edges) has computed an empty flow before and stays alive - instances are independent
+        try:
+            _SIBLING[0] = lena.structures.SplitIntoBins(
+                lena.math.Sum(), lena.variables.Variable("sib", M.ident, type="sibling", unit="s"),
+                [0, 1, 2])
+            list(_SIBLING[0].compute())
+        except Exception:  # noqa
+            pass
     try:
         sib = lena.structures.SplitIntoBins(M.build_analysis(case["an"], d), var, edges)
         for v in M.build_flow(case["flow"], case["var"], case["mode"]):
@@ -143,6 +153,7 @@ def _execute_sib(case):
     return outs, term, var_snapshot
 
 
+_SIBLING = [None]
 _VAR_AFTER = [None]      # (var_context of the argument variable after the run, before the run)
 
 
